@@ -120,8 +120,76 @@ func ruleC04a(c *Ctx) {
 			})
 		}
 	}
+	// carriers: parameters that hold the binder's result - the wrapper's pathParams, and a parameter of a module helper
+	// that every call of the helper binds to such a parameter (`acquireRequest(httpRequest, pathParams, r)`)
+	type carrierKey struct {
+		fn  *ssa.Function
+		idx int
+	}
+	carriers := map[carrierKey]bool{}
+	pw := p.pairWrapper()
+	if pw != nil && pw.PathVars >= 0 {
+		carriers[carrierKey{pw.Fn, pw.PathVars}] = true
+	}
+	isCarrier := func(v ssa.Value) bool {
+		prm, ok := strip(v).(*ssa.Parameter)
+		if !ok || prm.Parent() == nil {
+			return false
+		}
+		for k, q := range prm.Parent().Params {
+			if q == prm && carriers[carrierKey{prm.Parent(), k}] {
+				return true
+			}
+		}
+		return false
+	}
+	for changed := true; changed; {
+		changed = false
+		for _, g := range p.SrcFunc {
+			if !p.inModule(g) || g.Blocks == nil {
+				continue
+			}
+			for k := range g.Params {
+				if carriers[carrierKey{g, k}] || !types.Identical(g.Params[k].Type(), types.NewMap(types.Typ[types.String], types.Typ[types.String])) {
+					continue
+				}
+				sitesN, all := 0, true
+				for _, e := range p.callGraph().In[g] {
+					if e.Kind != EdgeStatic || e.Site == nil {
+						all = false
+						continue
+					}
+					cc := callCommon(e.Site)
+					if cc == nil || k >= len(cc.Args) {
+						all = false
+						continue
+					}
+					sitesN++
+					if !isCarrier(cc.Args[k]) {
+						all = false
+					}
+				}
+				if sitesN > 0 && all {
+					carriers[carrierKey{g, k}] = true
+					changed = true
+				}
+			}
+		}
+	}
+	storesParamsOnEveryPath := func(g *ssa.Function) bool {
+		sites := map[ssa.Instruction]bool{}
+		eachInstr(g, func(i ssa.Instruction) {
+			if st, ok := i.(*ssa.Store); ok {
+				if fa, ok := st.Addr.(*ssa.FieldAddr); ok && ownerOfFieldAddr(fa) == "Request" && fieldOfAddr(fa).Name() == "pathParameters" && isCarrier(st.Val) {
+					sites[i] = true
+				}
+			}
+		})
+		min, _, ok := countOnPaths(g, nil, sites)
+		return ok && min >= 1
+	}
 	// the wrapper stores the binder's result on every path
-	if pw := p.pairWrapper(); pw != nil {
+	if pw != nil {
 		w := pw.Fn
 		sites := map[ssa.Instruction]bool{}
 		eachInstr(w, func(i ssa.Instruction) {
@@ -129,6 +197,16 @@ func ruleC04a(c *Ctx) {
 				if fa, ok := st.Addr.(*ssa.FieldAddr); ok && ownerOfFieldAddr(fa) == "Request" && fieldOfAddr(fa).Name() == "pathParameters" {
 					if _, isParam := strip(st.Val).(*ssa.Parameter); isParam {
 						sites[i] = true
+					}
+				}
+			}
+			// or hands them to a helper that does
+			if cc := callCommon(i); cc != nil {
+				if g := cc.StaticCallee(); g != nil && p.inModule(g) && g.Blocks != nil {
+					for k, a := range cc.Args {
+						if isCarrier(a) && carriers[carrierKey{g, k}] && storesParamsOnEveryPath(g) {
+							sites[i] = true
+						}
 					}
 				}
 			}
@@ -152,9 +230,21 @@ func ruleC04a(c *Ctx) {
 				c.triv(name, "new Request starts with an empty parameter map", p.ipos(i), "constructor")
 				return
 			}
+			// a Request on its way back to a pool drops its parameters
+			if isNilConst(st.Val) {
+				released := false
+				eachInstr(fn, func(j ssa.Instruction) {
+					if cc := callCommon(j); cc != nil && calleeName(cc) == "(*sync.Pool).Put" && len(cc.Args) == 2 && p.sameVar(cc.Args[1], fa.X) && instrDominates(i, j) {
+						released = true
+					}
+				})
+				if released {
+					c.triv(name, "a Request that goes back to a pool drops its parameter map", p.ipos(i), "pathParameters = nil before Put")
+					return
+				}
+			}
 			prm, isParam := strip(st.Val).(*ssa.Parameter)
-			pw := p.pairWrapper()
-			c.check(isParam && pw != nil && fn == pw.Fn && prm.Name() != "", name, "Request.pathParameters is the binder's result, unmodified", p.ipos(i), "stored from the pathParams parameter", "path parameters are assigned from somewhere else than the binder's result")
+			c.check(isParam && isCarrier(st.Val) && prm.Name() != "", name, "Request.pathParameters is the binder's result, unmodified", p.ipos(i), "stored from the pathParams parameter", "path parameters are assigned from somewhere else than the binder's result")
 		})
 	}
 }
